@@ -616,11 +616,24 @@ func c06Redirects(c *Ctx) {
 	const rule = "the redirect policy returns http.ErrUseLastResponse when n == NoFollow, an error when more than n redirects were followed (n < len(via)), nil otherwise"
 	outer := c.P.Func("lib", "Redirects")
 	key := "redirect-policy:lib.Redirects"
-	if outer == nil || len(outer.AnonFuncs) != 1 || len(outer.AnonFuncs[0].AnonFuncs) != 1 {
-		c.Undecided(key, rule, "closure not found")
+	var fn *ssa.Function
+	if outer != nil {
+		for _, f := range withAnon(outer) {
+			eachInstr(f, func(i ssa.Instruction) {
+				if st, ok := i.(*ssa.Store); ok {
+					if fa, ok := st.Addr.(*ssa.FieldAddr); ok && fieldName(fa.X.Type(), fa.Field) == "CheckRedirect" {
+						if cl := closureOf(st.Val); cl != nil {
+							fn = cl
+						}
+					}
+				}
+			})
+		}
+	}
+	if fn == nil {
+		c.Undecided(key, rule, "no closure is installed as CheckRedirect")
 		return
 	}
-	fn := outer.AnonFuncs[0].AnonFuncs[0]
 	c.Saw("function " + shortFn(fn))
 	var noFollow, limit *ssa.BinOp
 	eachInstr(fn, func(i ssa.Instruction) {
